@@ -675,6 +675,8 @@ impl<'a> RefCtx<'a> {
                 let v2 = self.value(&ops[1], path)?;
                 match (&v1, &v2) {
                     (RV::Unknown, _) | (_, RV::Unknown) => Ok(RV::Unknown),
+                    // a NodeId converts implicitly to its text: the text format is not this property's
+                    (RV::Nid, _) | (_, RV::Nid) => Ok(RV::Unknown),
                     (RV::Str(s), RV::Str(p)) => {
                         if p.contains('_') {
                             self.tag("like-underscore");
@@ -1012,13 +1014,193 @@ fn gen_case(rng: &mut Rng, out: &mut Vec<String>) {
     out.push("eval".to_string());
 }
 
+fn hexs(x: &str) -> String {
+    format!("str:{}", show_str(x))
+}
+
+/// Deterministic small-scope enumeration: every case is one short clause + `validate` + `eval`.
+fn sweep_cases() -> Vec<Vec<String>> {
+    let mut cases: Vec<Vec<String>> = Vec::new();
+    let mut clause = |elems: &[String]| {
+        let mut c = vec!["reset".to_string()];
+        c.extend(elems.iter().map(|e| format!("elem {}", e)));
+        c.push("validate".to_string());
+        c.push("eval".to_string());
+        cases.push(c);
+    };
+    // representative literals of every value class (and of every conversion outcome)
+    let lits: Vec<String> = vec![
+        "n".into(),
+        "bool:0".into(),
+        "bool:1".into(),
+        "i8:-1".into(),
+        "u8:1".into(),
+        "i16:2".into(),
+        "i32:1".into(),
+        "i32:-1".into(),
+        "u64:1".into(),
+        "u64:18446744073709551615".into(),
+        "i64:-1".into(),
+        "f32:g3f800000".into(), // 1.0
+        "f64:f3ff0000000000000".into(), // 1.0
+        "f64:f3fe0000000000000".into(), // 0.5
+        "f64:f7ff8000000000000".into(), // NaN
+        "f64:fbff0000000000000".into(), // -1.0
+        hexs("a"),
+        hexs("b"),
+        "str:-".into(),
+        "nid:i32".into(),
+        "nid:bad".into(),
+        "s".into(),
+    ];
+    // (a) operand counts: None, empty, below / at / above the minimum, for every operator
+    for (op, name, _) in OPS.iter() {
+        let min = op.min_operands();
+        let arg = match op {
+            Op::And | Op::Or | Op::Not => "bool:1",
+            Op::Like => "str:s61",
+            _ => "i32:1",
+        };
+        clause(&[format!("{} -", name)]);
+        clause(&[name.to_string()]);
+        for k in 1..=min + 1 {
+            clause(&[format!("{} {}", name, vec![arg; k].join(" "))]);
+        }
+    }
+    // every operator over an element that is unsupported, and with an undecodable operand
+    for (op, name, _) in OPS.iter() {
+        let min = op.min_operands();
+        let mut a = vec!["e1"; 1];
+        a.extend(vec!["i32:1"; min.max(2) - 1]);
+        clause(&[format!("{} {}", name, a.join(" ")), "oftype i32:1 i32:1".into()]);
+        let mut b = vec!["i32:1"; min.max(2) - 1];
+        b.push("e1");
+        clause(&[format!("{} {}", name, b.join(" ")), "oftype i32:1 i32:1".into()]);
+        let mut c = vec!["i32:1"; min.max(2) - 1];
+        c.push("x");
+        clause(&[format!("{} {}", name, c.join(" "))]);
+    }
+    // (b) three-valued logic: all rows of the And / Or / Not tables, NULL both as the NULL literal
+    //     and as a value that does not resolve to a Boolean
+    let tri = ["bool:1", "bool:0", "n", "i32:1", "str:s61"];
+    for a in tri {
+        clause(&[format!("not {}", a)]);
+        for b in tri {
+            clause(&[format!("and {} {}", a, b)]);
+            clause(&[format!("or {} {}", a, b)]);
+        }
+    }
+    // (c) comparison of every pair of value classes with every comparison operator
+    for (i, a) in lits.iter().enumerate() {
+        for (j, b) in lits.iter().enumerate() {
+            clause(&[format!("eq {} {}", a, b)]);
+            // the ordering operators on the classes that can be ordered (and NULL)
+            if i < 16 && j < 16 {
+                for op in ["gt", "lt", "gte", "lte"] {
+                    clause(&[format!("{} {} {}", op, a, b)]);
+                }
+            }
+        }
+    }
+    // (d) operand kinds in a unary and in both positions of a binary operator
+    for o in ["e0", "e1", "e2", "e3", "e4", "e4294967295", "a", "x", "s", "s0", "n"] {
+        clause(&[format!("not {}", o), "eq i32:1 i32:1".into(), "not e1".into()]);
+        clause(&[format!("and {} bool:1", o), "eq i32:1 i32:1".into(), "not e1".into()]);
+        clause(&[format!("or bool:0 {}", o), "eq i32:1 i32:1".into(), "not e1".into()]);
+        clause(&[format!("isnull {}", o), "eq i32:1 i32:1".into(), "not e0".into()]);
+    }
+    // cycles through an ancestor further up
+    clause(&["not e1".into(), "not e2".into(), "not e0".into()]);
+    clause(&["not e1".into(), "not e2".into(), "not e1".into()]);
+    clause(&["and e1 e1".into(), "not e2".into(), "isnull n".into()]);
+    // (e) Between: every ordering of the value against both bounds, and failing conversions
+    for v in ["i32:0", "i32:1", "i32:2", "f64:f7ff8000000000000", "n", "u64:1", "bool:1"] {
+        for lo in ["i32:0", "i32:1", "i32:2", "n", "i8:-1", "bool:1", "bool:0"] {
+            for hi in ["i32:0", "i32:1", "i32:2", "n", "i8:-1", "e1", "bool:1", "bool:0"] {
+                clause(&[format!("between {} {} {}", v, lo, hi), "oftype i32:1 i32:1".into()]);
+            }
+        }
+    }
+    // (f) InList: match first / middle / last / none, lists of 1..3, errors inside the list
+    for l in [
+        "i32:1 i32:1",
+        "i32:1 i32:2",
+        "i32:1 i32:2 i32:1",
+        "i32:1 i32:1 i32:2",
+        "i32:1 i32:2 i32:3 i32:1",
+        "i32:1 i32:2 i32:3 i32:4",
+        "i32:1 n u8:1",
+        "i32:1 e1 u8:1",
+        "i32:1 e7 u8:1",
+        "i32:1 a u8:1",
+        "e1 i32:1",
+        "u64:1 i32:-1 u64:1",
+        "str:s61 str:s62 str:s61",
+    ] {
+        clause(&[format!("inlist {}", l), "oftype i32:1 i32:1".into()]);
+    }
+    // (g) bitwise: every pair of value classes, both operators
+    let bits = ["n", "bool:1", "i8:-1", "u8:3", "i32:-1", "i32:6", "u64:1", "u64:18446744073709551615", "f64:f3ff0000000000000", "str:s61", "nid:i32"];
+    for a in bits {
+        for b in bits {
+            clause(&[format!("bitand {} {}", a, b)]);
+            clause(&[format!("bitor {} {}", a, b)]);
+        }
+    }
+    // (h) Cast: every data type node, an unknown node, something that is not a NodeId
+    for v in ["u8:200", "i32:-1", "i32:0", "i32:1", "f64:fc004000000000000", "bool:1", "bool:0", "n", "str:s61", "u64:18446744073709551615"] {
+        for t in ["bool", "i8", "u8", "i16", "u16", "i32", "u32", "i64", "u64", "f32", "f64", "bad"] {
+            clause(&[format!("cast {} nid:{}", v, t)]);
+        }
+        clause(&[format!("cast {} i32:6", v)]);
+        clause(&[format!("cast {} n", v)]);
+    }
+    // (i) LIKE: one pattern per feature of the translation and of the regex syntax
+    let subjects = ["", "a", "b", "ab", "abc", "a.c", "a\\b", "\\", "%", "_", "]", "[a]", "a-c", "^", "ac", "a\nb", "aab", "$"];
+    for p in [
+        "", "a", "abc", "%", "a%", "%a", "%a%", "a%c", "_", "__", "a_", "_a", "a_c", "%_", "_%", "a__", "%__", "a%_",
+        "[a]", "[ab]", "[a-c]", "[^a]", "[^a-c]", "[]]", "[^]]", "[a-]", "[-a]", "[c-a]", "[a", "[", "[]", "[^]", "[^",
+        "[.]", "[*]", "[%]", "[_]", "[\\]]", "[\\\\]", "[a\\]", "[a^]", "a[bc]d", "[a]_", "[a]%", "[ab]__",
+        ".", "*", "?", "+", "(", ")", "$", "^", "-", "]", "a.c", "a$", "^a",
+        "\\%", "\\_", "\\[", "\\]", "\\\\", "\\.", "\\*", "\\a", "\\-", "\\^", "\\\\%", "\\\\_", "a\\", "\\", "\\\\\\",
+    ] {
+        let mut c = vec!["reset".to_string(), format!("likere {}", show_str(p))];
+        for s in subjects {
+            c.push("reset".to_string());
+            c.push(format!("elem like {} {}", hexs(s), hexs(p)));
+            c.push("eval".to_string());
+        }
+        cases.push(c);
+    }
+    // LIKE with operands that are not strings
+    let classes = ["n", "bool:1", "i32:1", "f64:f3ff0000000000000", "str:s61", "str:s25", "str:-", "nid:i32", "s"];
+    for a in classes {
+        for b in classes {
+            let mut c = vec!["reset".to_string()];
+            c.push(format!("elem like {} {}", a, b));
+            c.push("validate".to_string());
+            c.push("eval".to_string());
+            cases.push(c);
+        }
+    }
+    cases
+}
+
 impl Prop for C39 {
     fn id(&self) -> &'static str {
         "C39"
     }
 
     fn gen(&self, rng: &mut Rng, n: usize, _tier: Tier, out: &mut Vec<String>) {
-        for _ in 0..n {
+        // 1. systematic single-step sweep (operand counts, truth tables, comparison class pairs,
+        //    operand kinds, Between/InList outcomes, bitwise, Cast targets, LIKE syntax features)
+        let sweep = sweep_cases();
+        let m = sweep.len().min(n);
+        for c in &sweep[..m] {
+            out.extend(c.iter().cloned());
+        }
+        // 2. random filters
+        for _ in m..n {
             gen_case(rng, out);
         }
     }
